@@ -202,11 +202,49 @@ def mk_pi(which):
     return body
 
 
+FORMAL = {'COO': -1, 'CYS': -1, 'TYR': -1, 'C-': -1, 'HIS': 1, 'LYS': 1, 'ARG': 1, 'N+': 1}
+
+
+def mk_pipeline_charges(name, shape):
+    def body(ctx):
+        """the charge curves of a structure that went through the whole pipeline -- as one conformation, as two MODELs, or with
+        alternate locations -- are the Henderson-Hasselbalch sum over the reported group records: formal charge of the group
+        type (never a fraction of it), reported pKa for the folded and model pKa for the unfolded curve; pH symbolic"""
+        from . import micro as M
+        txt = M.text(name)
+        first = min(int(l[22:26]) for l in txt.split('\n') if l.startswith('ATOM'))
+        ca = [l for l in txt.split('\n') if l.startswith('ATOM') and l[12:16].strip() == 'CB'][0]
+        if shape == 'two MODELs':
+            txt = M.models(txt, M.moved(txt, int(ca[22:26]), 'CB', (0.05, 0.0, 0.0)))
+        elif shape == 'alternate locations':
+            txt = M.altloc(txt, int(ca[22:26]), 'CB')
+        mol = M.run(txt)
+        n = {'one conformation': 1}.get(shape, 2)
+        ctx.claim('number-of-conformations', len(mol.conformation_names) == n, detail=repr(mol.conformation_names))
+        p = mol.conformations['AVR'].parameters
+        ph = ctx.real('ph', 0, 14)
+        for cname in ['AVR'] + list(mol.conformation_names):
+            conf = mol.conformations[cname]
+            unf, fol = conf.calculate_charge(p, ph=ph)
+            eu, ef = 0.0, 0.0
+            for g in conf.groups:
+                if not g.titratable:
+                    continue
+                q = FORMAL[g.type]
+                ctx.claim('group-carries-the-formal-charge-of-its-type', g.charge == q, detail='%s %s: %r' % (cname, g.label, g.charge))
+                ru, rf = 10 ** (q * (g.model_pka - ph)), 10 ** (q * (g.pka_value - ph))
+                eu = eu + q * (ru / (1.0 + ru))
+                ef = ef + q * (rf / (1.0 + rf))
+            ctx.claim('unfolded-curve-is-the-sum-over-the-records', eq(unf, eu), detail=cname)
+            ctx.claim('folded-curve-is-the-sum-over-the-records', eq(fol, ef), detail=cname)
+    return body
+
+
 def obligations(tier):
     G = 'propka/group.py:'
     M = 'propka/molecular_container.py:'
     C = 'propka/conformation_container.py:'
-    return [
+    obs = [
         Obligation('O1-single-site', o_single_site, code=[G + 'Group.calculate_charge'],
                    bounds='charge in {-1,+1}; pKa, model pKa in [-20,40]; pH, pH\' in [-10,30]',
                    claim_doc='0..formal charge, half at pH=pKa, non-increasing in pH, state selects the pKa'),
@@ -228,6 +266,14 @@ def obligations(tier):
                    bounds='as O4-pi-folded', shims=['conformation.calculate_charge -> symbolic non-increasing curves'],
                    claim_doc='second component likewise on the UNFOLDED curve', max_paths=5000),
     ]
+    for name in (['pair_GLU_ARG_TYR'] if tier == 'quick' else ['pair_GLU_ARG_TYR', 'pep8', 'pair_LYS_ASP', 'tri_HIS']):
+        for shape in ('one conformation', 'two MODELs', 'alternate locations'):
+            obs.append(Obligation('O5-pipeline-charge-curves[%s,%s]' % (name, shape), mk_pipeline_charges(name, shape),
+                                  code=['propka/run.py:single (whole pipeline)', M + 'MolecularContainer.average_of_conformations', G + 'Group.__iadd__', G + 'Group.__truediv__', G + 'Group.clone',
+                                        C + 'ConformationContainer.calculate_charge', G + 'Group.calculate_charge'],
+                                  bounds='micro-structure %s as %s (a CB displaced by 0.05 A in the second one); pH symbolic in [0,14]' % (name, shape),
+                                  claim_doc='in every conformation and in the average: each titratable group carries the formal charge of its type, and both curves are the Henderson-Hasselbalch sums over the group records', max_paths=200))
+    return obs
 
 
 MANIFEST_ENTRY = {
